@@ -52,6 +52,13 @@ CHECKS.update({
          "For generated states with pending insertions and deletions, the build is cancelled at every poll index; it must return BuildCancelled (or Ok with a valid index if never polled again), never panic; abort restores the raw dump byte for byte; retry validates; MapFull and io errors are reported as such; no fd or temp file leaks.", "Monotone callbacks; ENOSPC/EIO on temp files not injectable here.", "4 C10"),
 })
 
+CHECKS.update({
+ "C16": ("exploration", "golden-fixture differential + property-based update batches on fixtures + reference-codec round trip of generated databases + exhaustive key lattice",
+         "Seven committed golden databases (raw bytes) must open, show the recorded items and answers, and accept generated incremental updates; every database produced by generated histories must decode under an independently written reference codec and re-encode to the same bytes; arroy's key codec equals the reference encoding on the boundary lattice and in byte order.", "Fixtures were produced by this task's reference tree (layout-neutral fixes only).", "4 C16"),
+ "C17": ("exploration", "property-based differential: generated current-layout databases inverted to the v0.4 layout, upgraded, compared byte for byte",
+         "For generated multi-index Cosine databases (built / never built / pending updates / item children) the harness inverts the layout change on the raw dump, runs cosine_from_0_4_to_0_5 in place or across environments and requires the original bytes back (minus version records); from_0_5_to_0_6 must add exactly one version record per index with metadata.", "The old layout is reconstructed from upgrade.rs / Appendix A, not from a v0.4 binary.", "4 C17"),
+})
+
 NOT_YET = {}
 
 def main():
